@@ -156,7 +156,7 @@ def check(ctx: Ctx) -> None:
             ob.violation(ci, got[0], f"channel default strconfig is {dv}, documented {ref.DEFAULT_CHANNEL}")
         # Unserializer takes the strconfig of the channel/gateway it is given
         ui = repo.func(f"{GB}.Unserializer.__init__")
-        from ..terms import cmp_term, evaluator, show
+        from ..terms import cmp_term, evaluator, show, tv
         evu = evaluator(repo, ui)
         ps = ui.params()
         COG, SC = ("sym", ps[2]), ("sym", ps[3])
@@ -200,6 +200,29 @@ def check(ctx: Ctx) -> None:
         ob.site(fr, stores[0], "RECONFIGURE stores the received pair unmodified", value=sorted(src))
         if len(src) != 1:
             ob.violation(fr, stores[0], "gateway and channel reconfigure store different values")
+        # scoping of the switches on the receiving side: the gateway-level pair is written only for channel id 0; every other id
+        # configures that channel (created on demand -- the frame may precede the channel's first use or follow its last)
+        evr = evaluator(repo, fr)
+        mp = fr.params()[0]
+        CID = ("sym", f"{mp}.channelid")
+        n_gw = n_ch = 0
+        for (pth, st) in evr.run(limit=4000):
+            known = dict(st.cond)
+            zero = tv(cmp_term("eq", CID, ("const", 0)), known)
+            for e in st.events:
+                if e.kind != "assign" or not str(e.target).endswith("._strconfig"):
+                    continue
+                if str(e.target) in (f"{fr.params()[1]}._strconfig",):
+                    n_gw += 1
+                    if zero is not True:
+                        ob.violation(fr, e.node, "RECONFIGURE writes the gateway-level coercion switches although the frame names a channel (id != 0 not excluded): a late or "
+                                                 "early channel reconfigure changes what every other channel of that side decodes", construct="gateway strconfig for channel id")
+                else:
+                    n_ch += 1
+                    if zero is not False or "channelid" not in str(e.target):
+                        ob.violation(fr, e.node, "RECONFIGURE for a channel id does not configure exactly that channel", construct="channel strconfig target")
+        ob.site(fr, fr.node, "gateway-level switches only for id 0, channel-level for the named id", gateway_stores=n_gw, channel_stores=n_ch)
+        ob.require(n_gw >= 1 and n_ch >= 1, f"_reconfigure: stores on paths: gateway {n_gw}, channel {n_ch}")
         # rsync keeps raw bytes/str apart
         fa = repo.func("rsync.RSync.add_target")
         rc = [c for c in repo.calls_in(fa) if callee_attr(c) == "reconfigure"]
@@ -284,3 +307,8 @@ def check(ctx: Ctx) -> None:
         unv = cs.reach([m for (m, l) in cs.succ[vtest[0].id] if l == "false"])
         if ver[0].id in unv and not cs.dominated_by(ver[0].id, vtest[0].id):
             ob.violation(sv, ver[0].ast, "the version byte is also written for unversioned (channel) streams")
+
+    # "one fixed opcode letter per type": what is written for a value depends on its exact type and content, not on the history of the
+    # process (no table keyed by equal-comparing values)
+    from .C01 import check_encoder_pure
+    check_encoder_pure(ctx, "C12.f")
